@@ -43,6 +43,11 @@ def check_case(case, ctx):
         except Exception as e:
             ctx.count('build_failed:' + type(e).__name__)
             return
+        if case.get('edited'):
+            case = dict(case, edits_applied=netgen.random_edits(c, rng))
+            _simp.CUR['case'] = case
+            net = refsem.net_of(c)
+            ctx.count('edited_circuits')
     sh = refsem.structural_hash(net)
     for form, desc in case['calls']:
         nviol = sum(ctx._viol_count.values())
@@ -83,7 +88,7 @@ def gen_case(rng, spec):
     calls.append(['cleanup', False])
     calls.append(['cleanup', True])
     return {'kind': 'random', 'shape': shape, 'net': netgen.describe(net), 'rseed': rng.getrandbits(32),
-            'shuffle': rng.random() < 0.25, 'calls': calls}
+            'shuffle': rng.random() < 0.25, 'calls': calls, 'edited': rng.random() < 0.3}
 
 
 def run_shard(spec, ctx):
